@@ -231,6 +231,17 @@ def handle(tok):
         m = RxMsg()
         m.parse_msg(mk_rx(tok[2:]).gen_msg(tok[1] == "1"))
         return ok(show_rx(m))
+    # oracle only: ONE decoder object decodes the encoding of a first message, then of a second one
+    if verb == "trxd.tx.rt2":
+        m = TxMsg()
+        m.parse_msg(mk_tx(tok[2:7]).gen_msg(tok[1] == "1"))
+        m.parse_msg(mk_tx(tok[8:13]).gen_msg(tok[7] == "1"))
+        return ok(show_tx(m))
+    if verb == "trxd.rx.rt2":
+        m = RxMsg()
+        m.parse_msg(mk_rx(tok[2:13]).gen_msg(tok[1] == "1"))
+        m.parse_msg(mk_rx(tok[14:25]).gen_msg(tok[13] == "1"))
+        return ok(show_rx(m))
     if verb == "trxd.tx.trans":
         return ok(show_rx(mk_tx(tok[2:]).trans(opt_int(tok[1]))))
     if verb == "trxd.rx.trans":
